@@ -67,6 +67,25 @@ func (h *harness) opCase(op, class string) {
 	case "check":
 		mx, _ := strconv.Atoi(fs[2])
 		impl = fmt.Sprint(int(index.VerifCheck(gen.UnHex(fs[1]), mx, fs[3] == "1")))
+	case "checkseq":
+		// ONE DocChecker for the whole sequence, as a Builder has for its whole life
+		var dc index.DocChecker
+		var res []int
+		for _, call := range strings.Split(fs[1], ",") {
+			p := strings.Split(call, ":")
+			mx, _ := strconv.Atoi(p[1])
+			res = append(res, int(dc.Check(gen.UnHex(p[0]), mx, p[2] == "1")))
+		}
+		impl = gen.NatList(res)
+		// Go oracle, independent of the Lean side: each verdict equals that of a fresh checker
+		for i, call := range strings.Split(fs[1], ",") {
+			p := strings.Split(call, ":")
+			mx, _ := strconv.Atoi(p[1])
+			var fresh index.DocChecker
+			if int(fresh.Check(gen.UnHex(p[0]), mx, p[2] == "1")) != res[i] {
+				goV, key = fmt.Sprintf("call %d on a reused DocChecker gives %d, a fresh checker gives another verdict", i, res[i]), "checker-state-leak"
+			}
+		}
 	case "crc":
 		var b [8]byte
 		binary.BigEndian.PutUint64(b[:], crc64.Checksum(gen.UnHex(fs[1]), crc64.MakeTable(crc64.ISO)))
@@ -220,6 +239,66 @@ func (h *harness) checkCases(r *gen.Rand, n int) {
 		if i%5 == 0 {
 			h.opCase("crc "+gen.Hex(c), "crc")
 		}
+	}
+}
+
+// lowEntropy: long content with few distinct trigrams (a short unit repeated), optionally with wide runes
+func lowEntropy(r *gen.Rand, minLen int) []byte {
+	unit := gen.Pick(r, []string{"ab", "a", "xyz ", "foo\n", "é", "日本", "ab\n", "=-"})
+	var b []byte
+	for len(b) < minLen+r.Intn(40) {
+		b = append(b, unit...)
+	}
+	return b
+}
+
+// highEntropy: content with at least n distinct trigrams
+func highEntropy(r *gen.Rand, n int) []byte {
+	var b []byte
+	for i := 0; i < n+6; i++ {
+		b = append(b, byte('a'+r.Intn(26)), byte('A'+(i%26)), byte('0'+(i/26)%10))
+	}
+	return b
+}
+
+// checkSeqCases: sequences of Check calls on one reused DocChecker — documents rejected by the early return ("too many
+// trigrams") followed by long documents with few trigrams, binary and tiny documents in between, constant limit (as a
+// Builder uses it) or a limit that changes between calls.
+func (h *harness) checkSeqCases(r *gen.Rand, n int) {
+	for i := 0; i < n; i++ {
+		mx := gen.Pick(r, []int{3, 5, 10, 20, 50})
+		var calls []string
+		tooManyBefore, lowAfter := false, 0
+		for j := 0; j < 2+r.Intn(5); j++ {
+			m := mx
+			if i%3 == 2 && r.Chance(1, 2) {
+				m = gen.Pick(r, []int{1, 3, 5, 10, 20, 50, 200})
+			}
+			var c []byte
+			allow := "0"
+			switch r.Intn(7) {
+			case 0, 1:
+				c = highEntropy(r, m)
+				tooManyBefore = true
+			case 2, 3, 4:
+				c = lowEntropy(r, m+3)
+				if tooManyBefore {
+					lowAfter++
+				}
+			case 5:
+				c = []byte(gen.Pick(r, []string{"", "ab", "abc", "a\x00bcdefgh"}))
+			case 6:
+				c = genContent(r, 30, r.Chance(1, 3), 0, false)
+				if r.Chance(1, 4) {
+					allow = "1"
+				}
+			}
+			calls = append(calls, fmt.Sprintf("%s:%d:%s", gen.Hex(c), m, allow))
+		}
+		if lowAfter > 0 {
+			h.w.Count("checkseq-low-entropy-after-too-many", 1)
+		}
+		h.opCase("checkseq "+strings.Join(calls, ","), "checkseq")
 	}
 }
 
